@@ -130,6 +130,7 @@ class Evaluator:
         self.max_steps = max_steps
         self.calls = 0
         self._const_stack = set()
+        self._class_objects = {}
 
     # -- entry points -----------------------------------------------------------------------
     def call(self, spec, args, self_obj=None, kwargs=None):
@@ -490,8 +491,21 @@ class Evaluator:
                     elif isinstance(op, (ast.Is, ast.IsNot)):
                         r = (left is right) == isinstance(op, ast.Is)
                     elif isinstance(op, (ast.In, ast.NotIn)) and not isinstance(right, Obj):
-                        # identity membership is the only thing decidable for abstract objects
-                        r = any(x is left for x in right) == isinstance(op, ast.In)
+                        # membership as Python defines it: identity first, then the element's (or the candidate's) __eq__
+                        found = False
+                        for x in right:
+                            if x is left:
+                                found = True
+                                break
+                            for a_, b_ in ((x, left), (left, x)):
+                                if isinstance(a_, Obj) and a_.mod != "builtins":
+                                    ok_, rv = self._obj_method(a_, "__eq__", [b_])
+                                    if ok_:
+                                        found = self._truth(rv)
+                                        break
+                            if found:
+                                break
+                        r = found == isinstance(op, ast.In)
                     elif (left is None or right is None) and isinstance(op, (ast.Eq, ast.NotEq)):
                         r = isinstance(op, ast.NotEq)
                     else:
@@ -698,6 +712,9 @@ class Evaluator:
                     raise Raised("StopIteration", e)
             if nm == "type" and len(e.args) == 1 and not e.keywords:
                 v = self._expr(e.args[0], env, mod, cls)
+                if isinstance(v, Obj) and v.mod != "builtins":
+                    # one ClassRef object per class, so that `type(a) is type(b)` compares classes
+                    return self._class_objects.setdefault((v.mod, v.cls), ClassRef(v.mod, v.cls))
                 if isinstance(v, (Obj, ClassRef, SuperRef)) or (isinstance(v, tuple) and v and v[0] in ("func", "pyfunc", "method", "pymethod")):
                     raise Undecided("type() of an object")
                 return type(v)
